@@ -17,7 +17,7 @@ const ERR_Q: i64 = 536870905;
 
 fn quant(x: f64, qe: i64) -> Value {
     if x.is_nan() { return json!(NAN_Q); }
-    let y = x * (2.0f64).powi(qe as i32);
+    let y = x * pow2(qe as i32);
     if y.abs() > CAP { return json!(if y > 0.0 { BIG_Q } else { -BIG_Q }); }
     json!(y.round() as i64)
 }
@@ -44,30 +44,30 @@ fn summ_float<T: F>(case: &Value, out: &mut Vec<Value>) {
     let s = case.get("S").and_then(|x| x.as_i64()).unwrap_or(4) as f64;
     let ws = case.get("WS").and_then(|x| x.as_i64()).unwrap_or(1) as f64;
     let bexp = case.get("bexp").and_then(|x| x.as_i64()).unwrap_or(-1);
-    let base = if bexp < 0 { 0.0 } else { (2.0f64).powi(bexp as i32) };
+    let base = if bexp < 0 { 0.0 } else { pow2(bexp as i32) };
     let qe = jint(case, "qe");
     let d2 = case.get("d").and_then(|x| x.as_i64()).unwrap_or(0);
     let p = case.get("p").and_then(|x| x.as_i64()).unwrap_or(2) as u16;
     let shape = shape_of(case, r.len());
     let axis = case.get("axis").and_then(|x| x.as_i64()).unwrap_or(0) as usize;
     let sexp = case.get("sexp").and_then(|x| x.as_i64()).unwrap_or(0) as i32;
-    let scale = (2.0f64).powi(sexp);
+    let scale = pow2(sexp);
     let xs: Vec<T> = match stat {
-        "geometric" => r.iter().map(|&e| T::f((2.0f64).powi(e as i32))).collect(),
+        "geometric" => r.iter().map(|&e| T::f(pow2(e as i32))).collect(),
         _ => r.iter().map(|&v| T::f((base + v as f64 / s) * scale)).collect(),
     };
     // mu_p of the scaled data divided by 2^(p*sexp) (exact) is mu_p of the unscaled data
-    let unscale = |v: T, pw: i32| -> T { T::f(v.g() * (2.0f64).powi(-pw * sexp)) };
+    let unscale = |v: T, pw: i32| -> T { T::f(v.g() * pow2(-pw * sexp)) };
     // an observation of weight zero that holds a value whose square is not representable
     let mut xs = xs;
     if case.get("huge0").and_then(|x| x.as_bool()).unwrap_or(false) && w.first() == Some(&0) {
-        xs[0] = T::f(if T::NAME == "f32" { (2.0f64).powi(100) } else { (2.0f64).powi(600) } * if r[0] < 0 { -1.0 } else { 1.0 });
+        xs[0] = T::f(if T::NAME == "f32" { pow2(100) } else { pow2(600) } * if r[0] < 0 { -1.0 } else { 1.0 });
     }
     let a = lay_of(case, "lay1", &shape).build(&xs, |_| T::f(-777.0));
     let l1 = lay_of(case, "lay1", &shape);
     let av = l1.view(&a);
     let wexp = case.get("wexp").and_then(|x| x.as_i64()).unwrap_or(0) as i32;
-    let wv: Vec<T> = w.iter().map(|&v| T::f(v as f64 / ws * (2.0f64).powi(wexp))).collect();
+    let wv: Vec<T> = w.iter().map(|&v| T::f(v as f64 / ws * pow2(wexp))).collect();
     let mut o = case.as_object().unwrap().clone();
     o.insert("ev".into(), json!("summ"));
     o.insert("ty".into(), json!(T::NAME));
@@ -95,7 +95,7 @@ fn summ_float<T: F>(case: &Value, out: &mut Vec<Value>) {
             let bv = l2.view(&b);
             let bo = if l2.forder { let mut t = Array::zeros(bv.raw_dim().f()); t.assign(&bv); t } else { bv.to_owned() };
             match stat {
-                "wsum" => res_json(guarded(|| ao.weighted_sum(&bo)), |v| q(T::f(v.g() * (2.0f64).powi(-wexp)), 0.0)),
+                "wsum" => res_json(guarded(|| ao.weighted_sum(&bo)), |v| q(T::f(v.g() * pow2(-wexp)), 0.0)),
                 "wmean" => res_json(guarded(|| ao.weighted_mean(&bo)), |v| q(v, base)),
                 "wvar" => res_json(guarded(|| ao.weighted_var(&bo, ddof)), |v| q(v, 0.0)),
                 _ => res_json(guarded(|| ao.weighted_std(&bo, ddof)), |v| quant(v.g() * v.g(), qe)),
@@ -171,7 +171,7 @@ fn corr_ev<T: F>(case: &Value, out: &mut Vec<Value>) {
     let rows: Vec<Vec<i64>> = case["rows"].as_array().unwrap().iter().map(jints).collect();
     let s = case.get("S").and_then(|x| x.as_i64()).unwrap_or(4) as f64;
     let bexp = case.get("bexp").and_then(|x| x.as_i64()).unwrap_or(-1);
-    let base = if bexp < 0 { 0.0 } else { (2.0f64).powi(bexp as i32) };
+    let base = if bexp < 0 { 0.0 } else { pow2(bexp as i32) };
     let qe = jint(case, "qe");
     let d2 = jint(case, "d");
     let (nv, no) = (rows.len(), rows[0].len());
@@ -193,7 +193,7 @@ fn corr_ev<T: F>(case: &Value, out: &mut Vec<Value>) {
     let k = jint(case, "k") as usize;
     let sexp = jint(case, "sexp") as i32;
     let mut m2 = m.to_owned();
-    for x in m2.row_mut(k).iter_mut() { *x = T::f(x.g() * (2.0f64).powi(sexp) + 3.0 * (2.0f64).powi(sexp)); }
+    for x in m2.row_mut(k).iter_mut() { *x = T::f(x.g() * pow2(sexp) + 3.0 * pow2(sexp)); }
     let (_, pv2) = mat(guarded(|| m2.pearson_correlation()));
     o.insert("pear_scaled".into(), pv2);
     let mut m3 = m.to_owned();
@@ -312,14 +312,18 @@ fn ent_ev<T: F>(case: &Value, out: &mut Vec<Value>) {
     let m = jint(case, "m");
     let qe = jint(case, "qe");
     let shape = shape_of(case, a.len());
-    let den = (2.0f64).powi(m as i32);
+    let den = pow2(m as i32);
     // codes: -1 = NaN, -2 = a negative value (q only)
     let mk = |v: i64| -> T { if v == -1 { T::nan() } else if v == -2 { T::f(-0.25) } else { T::f(v as f64 / den) } };
     let (l1, l2) = (lay_of(case, "lay1", &shape), lay_of(case, "lay2", &shape));
-    let pa = l1.build(&a.iter().map(|&v| mk(v)).collect::<Vec<T>>(), |_| T::f(0.5));
+    // optional extra binary exponents of p: p_i = a_i / 2^(m + ax_i), far into the subnormal range (a term that is zero at
+    // any resolution, but not a zero of p)
+    let ax = jints(&case["ax"]);
+    let pvals: Vec<T> = a.iter().enumerate().map(|(k, &v)| { let e = ax.get(k).copied().unwrap_or(0); if v > 0 && e > 0 { T::f(v as f64 / den * pow2(-(e as i32))) } else { mk(v) } }).collect();
+    let pa = l1.build(&pvals, |_| T::f(0.5));
     // optional extra binary exponents of q: q_i = b_i / 2^(m + bx_i) (probabilities far below p_i, still exactly representable)
     let bx = jints(&case["bx"]);
-    let qv: Vec<T> = b.iter().enumerate().map(|(k, &v)| { let e = bx.get(k).copied().unwrap_or(0); if v > 0 && e > 0 { T::f(v as f64 / den * (2.0f64).powi(-(e as i32))) } else { mk(v) } }).collect();
+    let qv: Vec<T> = b.iter().enumerate().map(|(k, &v)| { let e = bx.get(k).copied().unwrap_or(0); if v > 0 && e > 0 { T::f(v as f64 / den * pow2(-(e as i32))) } else { mk(v) } }).collect();
     let pb = l2.build(&qv, |_| T::f(0.25));
     let (va, vb) = (l1.view(&pa), l2.view(&pb));
     let cls = |x: T| -> Value { let v = x.g(); if v.is_nan() { json!({"c": "nan", "q": 0}) } else if v == f64::INFINITY { json!({"c": "inf", "q": 0}) } else if v == f64::NEG_INFINITY { json!({"c": "ninf", "q": 0}) } else { json!({"c": "fin", "q": quant(v, qe)}) } };
@@ -331,6 +335,11 @@ fn ent_ev<T: F>(case: &Value, out: &mut Vec<Value>) {
     o.insert("CE".into(), match guarded(|| va.cross_entropy(&vb)) { Ok(Ok(v)) => cls(v), _ => json!({"c": "error", "q": 0}) });
     o.insert("KL".into(), match guarded(|| va.kl_divergence(&vb)) { Ok(Ok(v)) => cls(v), _ => json!({"c": "error", "q": 0}) });
     o.insert("KLself".into(), match guarded(|| va.kl_divergence(&va.to_owned())) { Ok(Ok(v)) => cls(v), _ => json!({"c": "error", "q": 0}) });
+    // KL is homogeneous of degree one: both operands scaled by 2^kexp (towards the top of the type's range), result scaled back
+    let kexp = case.get("kexp").and_then(|x| x.as_i64()).unwrap_or(0) as i32;
+    let c = T::f(pow2(kexp));
+    let (sa, sb) = (va.mapv(|x| x * c), vb.mapv(|x| x * c));
+    o.insert("KLs".into(), match guarded(|| sa.kl_divergence(&sb)) { Ok(Ok(v)) => cls(T::f(v.g() * pow2(-kexp))), _ => json!({"c": "error", "q": 0}) });
     o.insert("shape".into(), json!(shape));
     out.push(Value::Object(o));
 }
@@ -353,6 +362,21 @@ fn devnan_ev(case: &Value, out: &mut Vec<Value>) {
     o.insert("eq_alias".into(), json!(c(guarded(|| va.count_eq(&va.clone())))));          // the same memory, the same layout
     o.insert("neq_alias".into(), json!(c(guarded(|| va.count_neq(&l1.view(&pa))))));
     o.insert("eq_copy".into(), json!(c(guarded(|| va.count_eq(&va.to_owned())))));
+    // max / sum of the differences do not depend on where a pair sits: the operands as given, both reversed, both rotated by one
+    let fa: Vec<f64> = va.iter().cloned().collect();
+    let fb: Vec<f64> = vb.iter().cloned().collect();
+    let n = fa.len();
+    let variants: Vec<(Array1<f64>, Array1<f64>)> = vec![
+        (Array1::from(fa.clone()), Array1::from(fb.clone())),
+        (Array1::from(fa.iter().rev().cloned().collect::<Vec<_>>()), Array1::from(fb.iter().rev().cloned().collect::<Vec<_>>())),
+        (Array1::from((0..n).map(|k| fa[(k + 1) % n]).collect::<Vec<_>>()), Array1::from((0..n).map(|k| fb[(k + 1) % n]).collect::<Vec<_>>())),
+    ];
+    let f = |r: Result<Result<f64, ndarray_stats::errors::MultiInputError>, ()>| -> Value { match r { Ok(Ok(v)) => quant(v, 2), _ => json!(ERR_Q) } };
+    let mut linf = vec![f(guarded(|| va.linf_dist(&vb)))];
+    let mut l1 = vec![f(guarded(|| va.l1_dist(&vb)))];
+    for (x, y) in &variants { linf.push(f(guarded(|| x.linf_dist(y)))); l1.push(f(guarded(|| x.l1_dist(y)))); }
+    o.insert("linf".into(), json!(linf));
+    o.insert("l1".into(), json!(l1));
     out.push(Value::Object(o));
 }
 
@@ -595,7 +619,14 @@ pub fn gen(seed: u64, count: usize, tier: &str, params: &Params) -> Vec<Value> {
                     let k = rng.below(n as u64) as usize;
                     bx[k] = if ty == "f32" { 30 } else { *rng.pick(&[40i64, 60, 70]) };
                 }
-                cases.push(json!({"ev": "ent", "ty": ty, "a": a, "b": b, "bx": bx, "m": m, "qe": 12, "shape": shape, "lay1": lay1, "lay2": lay2}));
+                // elements of p far into the subnormal range
+                let mut ax: Vec<i64> = vec![0; n];
+                if rng.chance(1, 5) { let k = rng.below(n as u64) as usize; if a[k] > 0 && a[k] <= 16 { ax[k] = if ty == "f32" { 140 } else { 1040 }; } }
+                // both operands towards the top of the range (only where all ratios q/p are moderate)
+                let plain = bx.iter().all(|&e| e == 0) && ax.iter().all(|&e| e == 0);
+                let ssum: f64 = a.iter().filter(|&&v| v > 0).map(|&v| v as f64).sum::<f64>() / (1i64 << m) as f64;
+                let kexp: i64 = if plain && rng.chance(1, 3) { (if ty == "f32" { 126 } else { 1021 }) - (ssum.max(1.0).log2().ceil() as i64) } else { 0 };
+                cases.push(json!({"ev": "ent", "ty": ty, "a": a, "b": b, "bx": bx, "ax": ax, "kexp": kexp, "m": m, "qe": 12, "shape": shape, "lay1": lay1, "lay2": lay2}));
             }
         }
     }
